@@ -7,7 +7,8 @@ PATCH="$(readlink -f "$1")"; shift
 M="${MUT_DIR:-/root/scratch/mut}"
 OUT="${MUT_DIR:-/root/scratch/mut}-out"
 rm -rf "$M"; mkdir -p "$M" "$OUT"
-cp -r /repo/vibrato "$M/vibrato"
+# the whole workspace (without build output) so that patches to the CLI crates apply as well
+rsync -a --exclude target --exclude .git /repo/ "$M/"
 ( cd "$M" && patch -s -p1 < "$PATCH" ) || { echo "patch failed"; exit 3; }
 cd "$(dirname "$0")/.."
 for id in "$@"; do
